@@ -358,6 +358,48 @@ func execQ(f []string, shared *chaincfg.Params) string {
 				tok += "/INPUT-MUTATED"
 			}
 			out = append(out, tok)
+		case 'F': // 12 goroutines released together on a FRESH instance (empty caches, so every call
+			// walks and writes): 4x ThresholdState, 4x IsDeploymentActive, 4x CalcNextBlockVersion
+			if window == 0 && node >= 0 {
+				panic("window 0")
+			}
+			fc := build()
+			fc.SetTip(int(node))
+			res := make([]string, 12)
+			var wg sync.WaitGroup
+			start := make(chan struct{})
+			for k := 0; k < 12; k++ {
+				wg.Add(1)
+				go func(k int) {
+					defer wg.Done()
+					<-start
+					switch k % 3 {
+					case 0:
+						st, err := fc.Chain().ThresholdState(uint32(arg))
+						res[k] = stStr(st, err)
+					case 1:
+						ok, err := fc.Chain().IsDeploymentActive(uint32(arg))
+						switch {
+						case err != nil:
+							res[k] = "err"
+						case ok:
+							res[k] = "1"
+						default:
+							res[k] = "0"
+						}
+					default:
+						v, err := fc.Chain().CalcNextBlockVersion()
+						if err != nil {
+							res[k] = "err"
+						} else {
+							res[k] = fmt.Sprintf("%x", uint32(v))
+						}
+					}
+				}(k)
+			}
+			close(start)
+			wg.Wait()
+			out = append(out, strings.Join(res, "/"))
 		case 'P': // the exported, lock-taking methods called from 6 goroutines at once on one tip
 			if window == 0 && node >= 0 {
 				// a panic inside a goroutine cannot be recovered here and would leave chainLock held;
